@@ -109,7 +109,13 @@ func (s *wsServer) receive(w http.ResponseWriter, r *http.Request) {
 	ctx, cancel := context.WithTimeout(r.Context(), 20*time.Second)
 	defer cancel()
 	// the subscription request
-	if _, _, err := c.Read(ctx); err != nil {
+	_, req, err := c.Read(ctx)
+	if err != nil {
+		return
+	}
+	if rl, id := wsRelayFor(req); rl != nil {
+		cancel()
+		wsBridgeReceive(r.Context(), c, rl, id)
 		return
 	}
 	s.mu.Lock()
@@ -138,8 +144,15 @@ func (s *wsServer) send(w http.ResponseWriter, r *http.Request) {
 	defer c.Close(websocket.StatusNormalClosure, "")
 	ctx, cancel := context.WithTimeout(r.Context(), 20*time.Second)
 	defer cancel()
+	c.SetReadLimit(1 << 24)
 	for {
-		if _, _, err := c.Read(ctx); err != nil {
+		_, msg, err := c.Read(ctx)
+		if err != nil {
+			return
+		}
+		if rl, _ := wsRelayFor(msg); rl != nil {
+			cancel()
+			wsBridgeSend(r.Context(), c, rl, msg)
 			return
 		}
 	}
